@@ -285,7 +285,7 @@ def _m3(res, prop, rule):
     return outs
 
 
-RES_RULE = ("TLC enumerates every tree shape up to MaxN nodes x 8 naming schemes (distinct, case variants, duplicate siblings, regex metacharacters, "
+RES_RULE = ("TLC enumerates every tree shape up to MaxN nodes x 9 naming schemes (distinct, case variants, duplicate siblings, regex metacharacters, line breaks, "
             "prefix/suffix names, brackets/other separator/star, numeric values, missing attribute) as initial states and, from every start node, every "
             "path of up to MaxComps components over {names, upper-cased names, unknown, '..', '.', '', wildcard patterns, '**'} relative and absolute, "
             "with ignorecase on/off (and relax on/off); each transition is a vector replayed on real trees of four class variants (separators '/', ';', '::'; path attributes name, id, label). ")
